@@ -72,11 +72,17 @@ def run_table(binary, kind, table_file, wd, shards=NCPU, timeout=3000, n=1, seed
 
 
 def corrupt_c11(rows, rnd):
-    cand = [r for r in rows if r["allowed"] and r["err"] == "none" and not r["omitted"] and r["mode"] != "form_post"]
+    cand = [r for r in rows if not r.get("par") and r["allowed"] and r["err"] == "none" and not r["omitted"] and r["mode"] != "form_post"]
     out = []
     for r in rnd.sample(cand, min(3, len(cand))):
         r = dict(r)
         r["allowed"] = False
+        out.append(r)
+    # a pushed request (no redirect_uri pushed, one registered) with another recorded target than the registered URI
+    cand = [r for r in rows if r.get("par") and r["pushed"] == "omitted" and len(r["reg"]) == 1 and r["code_ok"] and r["front_omitted"]]
+    for r in rnd.sample(cand, min(2, len(cand))):
+        r = dict(r)
+        r["target"] = dict(r["target"], host="evil.example")
         out.append(r)
     return out
 
@@ -349,7 +355,7 @@ def run(key, prop, tier, seed, binary, wd):
             rw = m["row"] if not isinstance(m["row"], str) else json.loads(m["row"])
             gk = (re.sub(r"_at_age_\d+|_age_\d+", "", m["field"]), str(m["exp"]), str(m["obs"]))
             if kind == "c11":
-                gk = (m["field"], json.dumps(rw.get("req"), sort_keys=True), "")
+                gk = (m["field"], json.dumps(rw.get("front" if rw.get("par") else "req"), sort_keys=True), "")
             elif kind in ("c14", "c06hmac") and m["field"] in ("at_hash", "c_hash", "at_hash_absent", "c_hash_absent", "state_unchanged_after_refusal"):
                 gk = (m["field"], rw.get("key", rw.get("mut", "")), rw.get("flow", rw.get("kind", "")))
             groups.setdefault(gk, []).append(m)
@@ -358,7 +364,7 @@ def run(key, prop, tier, seed, binary, wd):
             row = m["row"] if not isinstance(m["row"], str) else json.loads(m["row"])
             fp = f"{kind}/{key[0]}/{key[1]}/{key[2]}"
             if kind == "c11":       # the observed Location contains fresh random credentials: group by the requested URI
-                fp = f"{kind}/{key[0]}/" + "".join(str(row["req"].get(k, "")) for k in ("scheme", "userinfo", "host", "port", "path", "query", "fragment"))
+                fp = f"{kind}/{key[0]}/" + "".join(str(row["front" if row.get("par") else "req"].get(k, "")) for k in ("scheme", "userinfo", "host", "port", "path", "query", "fragment"))
             kf = [f for f in findings if re.fullmatch(f["fingerprint"], fp)]
             if kf:
                 if kf[0]["id"] not in known:
